@@ -15,6 +15,11 @@ GRAPH_STREAM = dict(
          '(type,key,group) identities, random 7-node DAGs/cyclic graphs; a scenario is non-trivial when it has at least one edge',
 )
 
+LOCKFACTS_GEN = dict(
+    name='lockfacts',
+    cmd='cd extract/lockfacts && go run . -out ../../lean/GodiModel/Gen/LockFacts.lean',   # honours VERIF_REPO
+)
+
 PROPS = {
     'C05': dict(streams=[GRAPH_STREAM]),
     'C06': dict(streams=[GRAPH_STREAM]),
